@@ -90,6 +90,8 @@ class World:
 		if not any(self.m):
 			self.m = Vector([True] + [False] * (n - 1))
 		self.keys = ["k", "a"]                       # a caller-owned list reused across calls
+		self.lon, self.ron = ["g"], ["g2"]           # caller-owned join key lists
+		self.over, self.over2, self.aggcols = ["k"], ["g", "k"], ["a", "b"]
 		self.ext = Vector([r.choice(["p", "q"]) for _ in range(n)], name="ext")    # an external key vector, not stored in the table
 		self.ext2 = Vector([r.choice([1, 2]) for _ in range(n)])                   # an unnamed external key vector
 		self.writes = []
@@ -101,8 +103,28 @@ class World:
 		for nm in ("v", "f", "dv", "sv", "m", "ext", "ext2"):
 			setattr(w, nm, fresh_vector(getattr(self, nm)))
 		w.keys = ["k", "a"]
+		w.lon, w.ron = ["g"], ["g2"]
+		w.over, w.over2, w.aggcols = ["k"], ["g", "k"], ["a", "b"]
 		w.writes = []
 		return w
+
+	ARG_LISTS = ("keys", "lon", "ron", "over", "over2", "aggcols")
+
+	def arg_snapshot(self):
+		return {nm: (getattr(self, nm), list(getattr(self, nm))) for nm in self.ARG_LISTS}
+
+	def arg_changed(self, snap):
+		out = []
+		for nm, (obj, items) in snap.items():
+			cur = getattr(self, nm)
+			if cur is not obj or len(cur) != len(items) or any(a is not b for a, b in zip(cur, items)):
+				out.append(nm)
+		return out
+
+	def reset_args(self):
+		self.keys = ["k", "a"]
+		self.lon, self.ron = ["g"], ["g2"]
+		self.over, self.over2, self.aggcols = ["k"], ["g", "k"], ["a", "b"]
 
 	def names(self):
 		return self.t.column_names()
@@ -117,7 +139,8 @@ class World:
 		i = r.randrange(n)
 		kind = r.choice(["cell-item", "cell-view", "cell-attr-view", "row", "column-slice", "attr-replace", "rename-view", "rename_column", "rename_columns-swap",
 			"v-write", "v-promote", "v-none", "f-write", "dv-write", "sv-write", "mask-write", "mask-write-twice", "ext-replace", "ext-write", "u-cell", "u-rename-move",
-			"t-rename-move", "key-write", "key-none", "derived-rename", "derived-write", "derived-rename"])
+			"t-rename-move", "key-write", "key-none", "derived-rename", "derived-write", "derived-rename",
+			"f-promote-complex", "dv-promote-datetime", "v-write-twice", "v-int-into-float", "f-none", "sv-none", "t-col-promote", "t-col-none", "key-write-twice"])
 		t = self.t
 		names = t.column_names()
 
@@ -189,6 +212,30 @@ class World:
 			o = call(self.v.__setitem__, i, 7.5)
 		elif kind == "v-none":
 			o = call(self.v.__setitem__, i, None)
+		elif kind == "v-write-twice":
+			o = call(self.v.__setitem__, i, r.choice([1, 4, 1000, 0]))
+			o = call(self.v.__setitem__, r.randrange(n), r.choice([2, 6, 0]))
+		elif kind == "v-int-into-float":
+			o = call(self.f.__setitem__, i, r.choice([3, 7, True]))
+		elif kind == "f-promote-complex":
+			o = call(self.f.__setitem__, i, 1 + 2j)
+		elif kind == "dv-promote-datetime":
+			o = call(self.dv.__setitem__, i, datetime(2020, 5, 5, 6, 30))
+		elif kind == "f-none":
+			o = call(self.f.__setitem__, i, None)
+		elif kind == "sv-none":
+			o = call(self.sv.__setitem__, i, None)
+		elif kind == "t-col-promote":
+			gp = next((p for p, x in enumerate(names) if x in ("g",)), None)
+			o = call(lambda: t.cols()[gp].__setitem__(i, 2.5)) if gp is not None else None
+		elif kind == "t-col-none":
+			bp = next((p for p, x in enumerate(names) if x in ("b", "bb")), None)
+			o = call(lambda: t.cols()[bp].__setitem__(i, None)) if bp is not None else None
+		elif kind == "key-write-twice":
+			kp = next((p for p, x in enumerate(names) if x == "k"), None)
+			if kp is not None:
+				o = call(lambda: t.cols()[kp].__setitem__(i, r.choice(["x", "y", "z"])))
+				o = call(lambda: t.cols()[kp].__setitem__(r.randrange(n), r.choice(["x", "y", "z"])))
 		elif kind == "f-write":
 			o = call(self.f.__setitem__, slice(0, 1), [r.choice([0.25, 4.0])])
 		elif kind == "dv-write":
@@ -281,12 +328,20 @@ FAMILIES = {
 		("T", lambda w: w.t.T), ("T.T", lambda w: w.t.T.T), ("rows", lambda w: [tuple(r) for r in w.t]), ("row0", lambda w: tuple(w.t[0])), ("row-1", lambda w: tuple(w.t[-1])),
 		("shape", lambda w: (len(w.t), w.t.shape)), ("rowslice", lambda w: w.t[0:2]), ("lshift-row", lambda w: w.t << [list(r) for r in w.t][0]),
 		("lshift-table", lambda w: w.t << w.t[0:1]), ("cell", lambda w: w.t[w.n - 1, 1]),
+		("iter-row-sums", lambda w: [r.sum() for r in w.t[_gname(w), _bname(w)]]), ("iter-row-slices", lambda w: [list(r[0:2]) for r in w.t]), ("iter-row-math", lambda w: [list(r * 2) for r in w.t[_gname(w), _bname(w)]]),
+		("two-rows-held", lambda w: (lambda a, b: (tuple(a), tuple(b)))(w.t[0], w.t[w.n - 1])), ("row-held-across-shape", lambda w: (lambda r: (w.t.shape, tuple(r)))(w.t[-1])),
+		("row-by-name", lambda w: [w.t[0][nm] for nm in w.t.column_names() if isinstance(nm, str) and nm.isidentifier() and nm == nm.lower()]), ("rows-after-set_index", lambda w: [tuple(r.copy()) for r in w.t]),
 	],
 	"C05": [
 		("bit_length", lambda w: w.v.bit_length()), ("to_bytes", lambda w: w.v.to_bytes(4, "big")), ("conjugate", lambda w: w.v.conjugate()), ("is_integer", lambda w: w.f.is_integer()),
 		("hex", lambda w: w.f.hex()), ("year", lambda w: w.dv.year), ("isoformat", lambda w: w.dv.isoformat()), ("upper", lambda w: w.sv.upper()), ("v+1", lambda w: w.v + 1),
-		("v*f", lambda w: w.v * w.f), ("dv+1", lambda w: w.dv + 1), ("dv+v", lambda w: w.dv + Vector([1] * w.n)), ("2-v", lambda w: 2 - w.v), ("t.a*2", lambda w: w.t[_gname(w), _bname(w)] * 2),
+		("v*f", lambda w: w.v * w.f), # (date + int days is serif's own extension; once the vector has been promoted to datetime in place Python defines no "+ int" and the
+		# statement says nothing, so these two are only evaluated while the kind is still date)
+		("dv+1", lambda w: w.dv + 1 if w.dv.schema().kind is date else None), ("dv+v", lambda w: w.dv + Vector([1] * w.n) if w.dv.schema().kind is date else None), ("2-v", lambda w: 2 - w.v), ("t.a*2", lambda w: w.t[_gname(w), _bname(w)] * 2),
 		("real", lambda w: w.v.real), ("as_integer_ratio", lambda w: w.f.as_integer_ratio()),
+		("f+1.0", lambda w: w.f + 1.0), ("1.5*f", lambda w: 1.5 * w.f), ("f/f", lambda w: w.f / (w.f + 10.0)), ("v.is_integer", lambda w: w.v.is_integer()), ("f.real", lambda w: w.f.real), ("f.imag", lambda w: w.f.imag),
+		("dv+timedelta", lambda w: w.dv + __import__("datetime").timedelta(hours=6)), ("dv-timedelta", lambda w: w.dv - __import__("datetime").timedelta(days=1, hours=1)), ("dv.day", lambda w: w.dv.day),
+		("t.col+1.0", lambda w: w.t[_gname(w)] + 1.0), ("t.col.real", lambda w: w.t[_gname(w)].real),
 	],
 	"C06": [
 		("mean", lambda w: w.t[_aname(w)].mean()), ("stdev", lambda w: w.t[_aname(w)].stdev()), ("sum", lambda w: w.t[_aname(w)].sum()), ("max", lambda w: w.t[_aname(w)].max()),
@@ -299,20 +354,32 @@ FAMILIES = {
 		("v[0:2]", lambda w: w.v[0:2]), ("v==v", lambda w: w.v == fresh_vector(w.v)), ("v<f", lambda w: w.v < w.f), ("t[list-mask]", lambda w: w.t[list(w.m)]), ("v[-1]", lambda w: w.v[-1]),
 	],
 	"C09": [
+		("inner-by-lists", lambda w: w.t.inner_join(w.u, w.lon, w.ron, expect="many_to_many")),
 		("inner-by-name", lambda w: w.t.inner_join(w.u, _gname(w), _ug(w), expect="many_to_many")), ("inner-by-vector", lambda w: w.t.inner_join(w.u, w.t[_gname(w)], w.u[_ug(w)], expect="many_to_many")),
 		("inner-two-keys", lambda w: w.t.inner_join(w.u, [_gname(w), _kname(w)], [_ug(w), _first(w.u, ["k2"])], expect="many_to_many")),
 		("inner-self", lambda w: w.t.inner_join(w.t, _kname(w), _kname(w), expect="many_to_many")),
 	],
 	"C10": [
+		("left-by-lists", lambda w: w.t.join(w.u, w.lon, w.ron, expect="many_to_many")), ("full-by-lists", lambda w: w.t.full_join(w.u, w.lon, w.ron, expect="many_to_many")),
+		("full-swapped-lists", lambda w: w.u.full_join(w.t, w.ron, w.lon, expect="many_to_many")),
 		("left-by-name", lambda w: w.t.join(w.u, _gname(w), _ug(w), expect="many_to_many")), ("full-by-name", lambda w: w.t.full_join(w.u, _gname(w), _ug(w), expect="many_to_many")),
 		("full-swapped", lambda w: w.u.full_join(w.t, _ug(w), _gname(w), expect="many_to_many")), ("left-by-vector", lambda w: w.t.join(w.u, w.t[_gname(w)], w.u[_ug(w)], expect="many_to_many")),
 		("left-of-full", lambda w: w.t.join(w.t.full_join(w.u, _gname(w), _ug(w), expect="many_to_many"), _kname(w), _kname(w), expect="many_to_many")),
 	],
 	"C11": [
+		("self-join-then-dups", lambda w: (call(lambda: w.t.inner_join(w.t, _kname(w), _kname(w), expect="one_to_one")).ok, call(lambda: w.t.join(w.u, w.lon, w.ron, expect="one_to_one")).ok,
+			call(lambda: w.u.full_join(w.t, w.ron, w.lon, expect="one_to_many")).ok)),
+	] + [
 		(f"{how}-{exp}", (lambda how, exp: lambda w: getattr(w.t, how)(w.u, _gname(w), _ug(w), expect=exp))(how, exp))
 		for how in ("inner_join", "join", "full_join") for exp in ("one_to_one", "many_to_one", "one_to_many")
+	] + [
+		(f"{how}-{exp}-lists", (lambda how, exp: lambda w: getattr(w.t, how)(w.u, w.lon, w.ron, expect=exp))(how, exp))
+		for how in ("inner_join", "join", "full_join") for exp in ("one_to_one", "one_to_many")
 	],
 	"C12": [
+		("agg-by-lists", lambda w: w.t.aggregate(over=w.over, sum_over=w.aggcols, count_over=w.aggcols)), ("agg-by-lists2", lambda w: w.t.aggregate(over=w.over2, mean_over=w.aggcols)),
+		("agg-of-sorted-by-lists", lambda w: w.t.sort_by(_bname(w)).aggregate(over=w.over, max_over=w.aggcols)),
+		("v.sum-max", lambda w: (w.v.sum(), w.v.max(), w.v.min(), w.v.mean(), w.v.stdev())), ("col.sum-max", lambda w: (lambda c: (c.sum(), c.max(), c.min(), c.mean()))(w.t[_gname(w)])),
 		("agg-by-name", lambda w: w.t.aggregate(over=_kname(w), sum_over=_aname(w), count_over=_aname(w), mean_over=_bname(w))),
 		("agg-by-ext", lambda w: w.t.aggregate(over=w.ext, sum_over=_aname(w), max_over=_bname(w))),
 		("agg-by-unnamed-ext", lambda w: w.t.aggregate(over=w.ext2, count_over=_aname(w), apply={"vals": (_aname(w), tuple)})),
@@ -320,6 +387,8 @@ FAMILIES = {
 		("agg-by-vector", lambda w: w.t.aggregate(over=w.t[_gname(w)], sum_over=[_aname(w), _aname(w)])),
 	],
 	"C13": [
+		("win-by-lists", lambda w: w.t.window(over=w.over, sum_over=w.aggcols, count_over=w.aggcols)), ("win-of-sorted-by-lists", lambda w: w.t.sort_by(_bname(w)).window(over=w.over2, max_over=w.aggcols)),
+		("win-two-applies", lambda w: w.t.window(over=_kname(w), apply={"first": (_aname(w), lambda vs: vs[0]), "n": (_bname(w), len), "tup": (_gname(w), tuple)})),
 		("win-by-name", lambda w: w.t.window(over=_kname(w), sum_over=_aname(w), count_over=_aname(w), mean_over=_bname(w))),
 		("win-by-vector", lambda w: w.t.window(over=w.t[_kname(w)], max_over=_bname(w), apply={"vals": (_aname(w), tuple)})),
 		("win-by-ext", lambda w: w.t.window(over=w.ext, sum_over=_aname(w))),
@@ -328,7 +397,8 @@ FAMILIES = {
 	"C14": [
 		("sort-keys-list", lambda w: w.t.sort_by(w.keys)), ("sort-keys-list-rev", lambda w: w.t.sort_by(w.keys, reverse=[True, False])), ("sort-name", lambda w: w.t.sort_by(_kname(w), reverse=True)),
 		("sort-vector", lambda w: w.t.sort_by(w.t[_bname(w)])), ("sort-ext", lambda w: w.t.sort_by(w.ext2, na_last=False)), ("sort-sorted", lambda w: w.t.sort_by(w.keys).sort_by(w.keys)),
-		("v.sort_by", lambda w: w.v.sort_by(reverse=True)), ("sort-repeated-key", lambda w: w.t.sort_by([_gname(w), _kname(w), _gname(w)], reverse=[False, True, True])),
+		("v.sort_by", lambda w: w.v.sort_by(reverse=True)), ("resort-after-view-write", lambda w: (lambda r: (call(r.cols()[2].__setitem__, 0, 99).ok, norm(r.sort_by(_aname(w)))))(w.t.sort_by(_aname(w)))),
+		("sort-exact-name-vs-vector", lambda w: (norm(w.t.sort_by(_bname(w))), norm(w.t.sort_by(w.t[_bname(w)])))), ("sort-repeated-key", lambda w: w.t.sort_by([_gname(w), _kname(w), _gname(w)], reverse=[False, True, True])),
 	],
 	"C16": [("fp-table", lambda w: w.t.fingerprint()), ("fp-v", lambda w: w.v.fingerprint()), ("fp-slice", lambda w: w.v[0:2].fingerprint()), ("fp-rowslice", lambda w: w.t[0:2].fingerprint()),
 		("fp-column", lambda w: w.t.cols()[2].fingerprint()), ("fp-mask", lambda w: w.v[w.m].fingerprint())],
@@ -341,7 +411,12 @@ FAMILIES = {
 		("join-names", lambda w: w.t.join(w.u, _gname(w), _ug(w), expect="many_to_many").column_names()),
 	],
 	"C20": [("repr-table", lambda w: repr(w.t)), ("repr-v", lambda w: repr(w.v)), ("repr-slice", lambda w: repr(w.t[0:2])), ("repr-f", lambda w: repr(w.f))],
-	"C01": [("accessors", lambda w: accessor_view(w.t)), ("copy-then-names", lambda w: w.t.copy().column_names()), ("u-accessors", lambda w: accessor_view(w.u))],
+	"C01": [("T-twice-then-write", lambda w: (lambda a, b: (call(a.__setitem__, (0, 0), a.cols()[0]._underlying[-1]).ok, norm(b), norm(w.t.T)))(w.t.T, w.t.T)),
+		("slice-twice-then-write", lambda w: (lambda a, b: (call(a.__setitem__, (0, 0), a.cols()[0]._underlying[-1]).ok, norm(b)))(w.t[0:2], w.t[0:2])),
+		("sort-twice-then-write", lambda w: (lambda a, b: (call(a.__setitem__, (0, 1), 3).ok, norm(b)))(w.t.sort_by(_kname(w)), w.t.sort_by(_kname(w)))),
+		("to_object-twice-then-write", lambda w: (lambda a, b: (call(a.__setitem__, 0, "changed").ok, norm(b), norm(w.sv)))(w.sv.to_object().to_object(), w.sv.to_object())),
+		("copy-of-zero-rows-rename", lambda w: (lambda z, c: (call(c.rename_column, c.column_names()[0], "renamed").ok, z.column_names()))(w.t[w.n:w.n], w.t[w.n:w.n].copy())),
+		("accessors", lambda w: accessor_view(w.t)), ("copy-then-names", lambda w: w.t.copy().column_names()), ("u-accessors", lambda w: accessor_view(w.u))],
 	"C03": [("schemas", lambda w: [repr(c.schema()) for c in w.t.cols()]), ("lshift-vector-none", lambda w: w.v << Vector([1, None])), ("fillna-integral", lambda w: w.t[_aname(w)].fillna(0.0)),
 		("agg-stdev-schema", lambda w: w.t.aggregate(over=_kname(w), stdev_over=_bname(w)))],
 }
@@ -355,15 +430,16 @@ def run_recompute(chk, spec, family=None):
 	stratum = "recompute"
 	for rnd in range(spec.get("rounds", 6)):
 		name, fn = rng.choice(ops)
-		keys_before = list(w.keys)
+		snap = w.arg_snapshot()
 		live = call(fn, w)
 		ref = call(fn, w.rebuild())
 		chk.judged(stratum, ("recompute", family, name, tuple(w.writes[-2:])))
 		hist = "+".join(sorted(set(x.split("(")[0] for x in w.writes[-3:]))) or "fresh"
-		if len(w.keys) != len(keys_before) or any(a is not b for a, b in zip(w.keys, keys_before)):
-			chk.fail("operations never change their operands (a caller-owned argument was modified)", f"recompute/{name}/caller-argument-modified",
-				f"{family} {name}: the caller's key list {keys_before!r} became {short(w.keys, 120)}", prop=family)
-			w.keys = ["k", "a"]
+		changed = w.arg_changed(snap)
+		if changed:
+			chk.fail("operations never change their operands (a caller-owned argument list was modified)", f"recompute/{name}/caller-argument-modified",
+				f"{family} {name}: the caller's list argument(s) {changed} were rewritten: {short({nm: getattr(w, nm) for nm in changed}, 160)}", prop=family)
+			w.reset_args()
 		if live.ok != ref.ok:
 			chk.fail("an operation's outcome depends only on the current contents of its operands", f"recompute/{name}/outcome-differs-from-fresh-objects/after-{hist}",
 				f"{family} {name} on long-lived objects -> {live!r}; on fresh objects with the same contents -> {ref!r}; writes so far {w.writes}", prop=family)
